@@ -171,7 +171,7 @@ func init() {
 			{"counter99", 99, []string{"x", "x1"}, false, 3},
 			{"counter0-fill9", 0, []string{"x", "x1"}, true, 4},
 			// consumer names whose characters mean something in a URL path: the reference must still designate the session
-			{"counter0-url-characters", 0, []string{"x%2Fy", "x%41", "x y", "x+y", "x?y#z", "x%zz"}, false, 2},
+			{"counter0-url-characters", 0, []string{"x%2Fy", "x%41", "x y", "x+y", "x?y#z", "x%zz", "x/y", "x-0/release?"}, false, 2},
 			// names that differ in case or in surrounding blanks only
 			{"counter0-case-and-blanks", 0, []string{"x", "X", "x ", " x"}, false, 3},
 			// the counter 2^32 records later, with sessions still open
